@@ -232,7 +232,16 @@ def part_b(ctx):
 CTX_ALPHABET = [
     {"backend": "threading"}, {"backend": "loky", "n_jobs": 2}, {"n_jobs": 3}, {"prefer": "threads"},
     {"require": "sharedmem"}, {"verbose": 7}, {"backend": "multiprocessing", "verbose": 2}, {"max_nbytes": 5, "mmap_mode": "c"},
+    # the old API, mixed with the new one in the same stack
+    {"_kind": "parallel_backend", "backend": "threading", "n_jobs": 2}, {"_kind": "parallel_backend", "backend": "loky"},
+    {"temp_folder": "/tmp/vf-x", "verbose": 3, "require": "sharedmem"},
 ]
+
+
+def _enter_any(d):
+    d = dict(d)
+    kind = d.pop("_kind", "parallel_config")
+    return enter(kind, d)
 PROBES = [{}, {"n_jobs": 4}, {"backend": "threading"}, {"prefer": "threads"}, {"require": "sharedmem"}, {"verbose": 9}]
 
 
@@ -244,7 +253,7 @@ def probe_all():
         try:
             p = Parallel(**e)
             out.append((type(p._backend).__name__, p.n_jobs, p.verbose, p._backend_kwargs["max_nbytes"], p._backend_kwargs["mmap_mode"],
-                        p._backend_kwargs["prefer"], p._backend_kwargs["require"]))
+                        p._backend_kwargs["prefer"], p._backend_kwargs["require"], p._backend_kwargs["temp_folder"]))
         except ValueError:
             out.append("ValueError")
     b, nj = get_active_backend()
@@ -271,7 +280,7 @@ def part_c(ctx, depth):
             if i == len(stack):
                 return
             try:
-                with parallel_config(**stack[i]):
+                with _enter_any(stack[i]):
                     rec(i + 1)
                     if exit_kinds[i] == "exc":
                         raise _Boom()
@@ -410,7 +419,7 @@ def run(ctx):
             ctx.violation(*v)
     main_before = probe_all()
     nb = part_b(ctx)
-    nc, states, trans = part_c(ctx, 2 if quick else 3)
+    nc, states, trans = part_c(ctx, 3)
     nd, main_after = part_d(ctx)
     if main_after != main_before:
         ctx.violation("thread-locality|main-thread-affected", "probes in the main thread changed after other threads used contexts", {"part": "D"})
@@ -418,7 +427,7 @@ def run(ctx):
                 "{unset, 2} x prefer in {unset, threads, processes} x require in {unset, sharedmem} with parallel_config, and all "
                 "backend-setting pairs with parallel_backend: %d constructions vs the reference resolver and the sharedmem invariant; "
                 "(B) %d per-key precedence cases (depth <= 4); (C) %d context stacks x exit kinds (depth <= %d, %d distinct stacks, %d exits "
-                "checked differentially); (D) %d two-thread interleavings at operation granularity" % (n, nb, nc, 2 if quick else 3, states, trans, nd))
+                "checked differentially); (D) %d two-thread interleavings at operation granularity" % (n, nb, nc, 3, states, trans, nd))
     ctx.exhaustive = True
     ctx.sample({"part": "A", "stack": [{"backend": "loky", "n_jobs": 2}, {"require": "sharedmem"}], "explicit": {"backend": "multiprocessing"}})
     ctx.sample({"part": "C", "stack": [{"backend": "threading"}, {"verbose": 7}], "exits": ["exc", "normal"]})
